@@ -132,8 +132,11 @@ static void *decode_full(asn_TYPE_descriptor_t *td, enum asn_transfer_syntax ds,
     size_t n; uint8_t *b = unhex(hex, &n);
     void *st = 0;
     asn_dec_rval_t rv = asn_decode(0, ds, td, &st, b, n);
+    /* BASIC-XER output ends with a newline the decoder leaves alone (reported by `rt`
+     * as finding C01-xer-trailing-newline); as an *input* transport it is accepted */
+    int xer_nl = (ds == ATS_BASIC_XER && rv.code == RC_OK && n > 0 && rv.consumed + 1 == n && b[n - 1] == '\n');
     free(b);
-    if(rv.code != RC_OK || rv.consumed != n) {
+    if(rv.code != RC_OK || (rv.consumed != n && !xer_nl)) {
         printf("DECFAIL %s %zu\n", rcname(rv.code), rv.consumed);
         if(st) ASN_STRUCT_FREE(*td, st);
         return 0;
